@@ -61,6 +61,38 @@ CHECKS = {
         "schedule space explodes (never reached on the current tree).",
         "DESIGN.md 3/C11",
     ),
+    "C08": (
+        "model_checking",
+        "explicit-state breadth-first search over API-call histories with the implementation as transition relation, states de-duplicated on a canonical form, reference-model comparison in every state",
+        "Breadth-first search to fix-point (depth bound 12) over histories of "
+        "sow, re-sow, grow, Crop.grow(subset), grow_missing, failing grows "
+        "(through xyz.grow, Crop.grow and grow_missing), result deletion, "
+        "check_bad and reload on crops of 1..8 batches with and without "
+        "remainder. Every transition replays its whole history on fresh real "
+        "objects, then the progress queries of the live Crop object and of a "
+        "freshly loaded one are compared with the disk truth (independent "
+        "reader of result files) and with the reference model (a set of batch "
+        "ids); call logs and tree diffs check that each event did exactly what "
+        "it should and nothing else.",
+        "State = (tree hash, sower/reloaded object); merged states are assumed "
+        "to have equal futures (deterministic library); the never-sown crop is "
+        "only required to report not ready.",
+        "DESIGN.md 3/C08",
+    ),
+    "C09": (
+        "exploration",
+        "exhaustive enumeration of a finite configuration lattice on the real code",
+        "Every (N <= 2B+1, batchsize | num_batches) request giving B = 2..7 "
+        "batches x every non-empty proper subset of finished batches x shuffle x "
+        "reap form (raw, Dataset, DataFrame) x result kind is sown, partly grown "
+        "and reaped by the real code: refusal without allow_incomplete, "
+        "position-by-position exact-or-missing comparison of the partial reap, "
+        "untouched tree, then completion and exact full reap with clean-up.",
+        "Which settings belong to finished batches is taken from the call log "
+        "of growing exactly those batches; quick tier rotates forms/kinds over "
+        "the (request, subset) lattice instead of taking the full product.",
+        "DESIGN.md 3/C09",
+    ),
 }
 
 NOT_BUILT = "check not built yet in this session (design in DESIGN.md section 3)"
